@@ -47,6 +47,9 @@ def frac_of_float(x):
   """Float constants are read as the decimal literal the programmer wrote."""
   if x != x or x in (INF, -INF):
     raise Unsupported("nan/inf in arithmetic with a symbolic value")
+  # the simplest rational that rounds to this double (1./3 -> 1/3, .54 -> 27/50); else its decimal text
+  c = Fraction(x).limit_denominator(100000)
+  if float(c) == x: return c
   return Fraction(repr(x))
 
 
@@ -325,6 +328,8 @@ class Sym:
     if isinstance(n, Sym):
       if n.c is None: raise Unsupported("symbolic exponent")
       n = n.c
+    if isinstance(n, (float, Fraction)) and n == 0.5 and cur().sqrt_hook is not None:
+      return cur().sqrt_hook(self)
     if isinstance(n, float):
       if not n.is_integer(): raise Unsupported("non-integer power %r" % n)
       n = int(n)
